@@ -15,7 +15,8 @@ NOT_YET = "check not built yet; planned structural rules are in DESIGN.md sectio
 
 BASE = ("static analysis over facts from a custom rustc_private driver (MIR with resolved callees, expanded #[account] attributes, layouts, evaluated constants), "
         "canonicalised before the rules run (inlining of helpers new to the tree and of listed single-role helpers, jump threading of materialised booleans, "
-        "min/max recognition, moved-item aliasing, local conversions / plain setters read in place, whole-value stores as field stores, matches! as discriminant comparison): ")
+        "min/max recognition, moved-item aliasing, local conversions / plain setters read in place, whole-value stores as field stores, matches! as discriminant comparison); "
+        "plus, for the functions and account structs each property reads, a census of the unconditional refusals and of the account-constraint kinds recorded on the pinned tree: ")
 TECHNIQUE = {
     "C01": "who-may-call / reachability of the pool-signed transfer helpers from the 66 dispatch entries, read-reset-pay ordering by dominance, rounding-polarity tables by context-specialised constant propagation, floor-form call checks",
     "C02": "context-specialised boolean constant propagation (4 swap contexts) over inlined wrappers to the rounding flag of each curve primitive; increment-site reachability per flag; value-provenance matching of the remainder test against the incremented quotient; per-arm provenance of enum matches",
